@@ -93,9 +93,18 @@ func (w *c16World) svcSend(name, text string) {
 	}
 }
 
-func httpAddJSON(sub int, name string, port int, ua string) string {
-	return fmt.Sprintf(`{"Head":{"Event":%d,"User":"alice","Time":"t"},"Body":{"SubEvent":%d,"Info":{"Name":%q,"Protocol":"Http","Hosts":"127.0.0.1","HostBind":"127.0.0.1","HostRotation":"round-robin","PortBind":"%d","PortConn":"%d","Headers":"","Uris":"","HostHeader":"","UserAgent":%q,"Secure":"false"}}}`,
-		packager.Type.Listener.Type, sub, name, port, port, ua)
+// httpAddJSON: uris is "-" or "/a+/b", hdr is "-" or "Name:value" (tokens without blanks; the operator's message
+// separates list entries with ", " and a header's name from its value with ": ")
+func httpAddJSON(sub int, name string, port int, ua, uris, hdr string) string {
+	us, hs := "", ""
+	if uris != "-" {
+		us = strings.ReplaceAll(uris, "+", ", ")
+	}
+	if hdr != "-" {
+		hs = strings.Replace(hdr, ":", ": ", 1)
+	}
+	return fmt.Sprintf(`{"Head":{"Event":%d,"User":"alice","Time":"t"},"Body":{"SubEvent":%d,"Info":{"Name":%q,"Protocol":"Http","Hosts":"127.0.0.1","HostBind":"127.0.0.1","HostRotation":"round-robin","PortBind":"%d","PortConn":"%d","Headers":%q,"Uris":%q,"HostHeader":"","UserAgent":%q,"Secure":"false"}}}`,
+		packager.Type.Listener.Type, sub, name, port, port, hs, us, ua)
 }
 
 func (w *c16World) tcpOpen(port int) string {
@@ -168,7 +177,7 @@ func (w *c16World) line(c *Ctx, in string) {
 				w.ports[parts[2]] = port
 				w.busy[parts[2]] = parts[1] == "httpbusy"
 			}
-			w.opSend(httpAddJSON(T.Listener.Add, parts[2], port, "ua-1"))
+			w.opSend(httpAddJSON(T.Listener.Add, parts[2], port, "ua-1", "-", "-"))
 		}
 		time.Sleep(ms(80))
 		extra := ""
@@ -176,8 +185,12 @@ func (w *c16World) line(c *Ctx, in string) {
 			extra = " tcp=" + w.tcpOpen(w.ports[parts[2]])
 		}
 		c.Emit("%s => %s%s", in, w.state(), extra)
-	case "ledit": // ledit <name> <ua>: the operator edits the listener's user agent
-		w.opSend(httpAddJSON(T.Listener.Edit, parts[1], w.ports[parts[1]], parts[2]))
+	case "ledit": // ledit <name> <ua> [uris hdr]: the operator edits the listener's user agent, URI list and request header
+		uris, hdr := "-", "-"
+		if len(parts) > 4 {
+			uris, hdr = parts[3], parts[4]
+		}
+		w.opSend(httpAddJSON(T.Listener.Edit, parts[1], w.ports[parts[1]], parts[2], uris, hdr))
 		time.Sleep(ms(50))
 		c.Emit("%s => %s", in, w.state())
 	case "probe": // probe <name> <ua>: a fresh agent registers through the listener with this user agent
@@ -189,8 +202,16 @@ func (w *c16World) line(c *Ctx, in string) {
 		w.nprobe++
 		id := 0x00c16000 + w.nprobe
 		body := initPackage(id, id, bytes.Repeat([]byte{0x11}, 32), bytes.Repeat([]byte{0x22}, 16), regInfo{Hostname: "h", ProcName: "p"})
-		rq, _ := http.NewRequest("POST", fmt.Sprintf("http://127.0.0.1:%d/", port), bytes.NewReader(body))
+		path := "/"
+		if len(parts) > 3 {
+			path = parts[3]
+		}
+		rq, _ := http.NewRequest("POST", fmt.Sprintf("http://127.0.0.1:%d%s", port, path), bytes.NewReader(body))
 		rq.Header.Set("User-Agent", parts[2])
+		if len(parts) > 4 && parts[4] != "-" {
+			kv := strings.SplitN(parts[4], ":", 2)
+			rq.Header.Set(kv[0], kv[1])
+		}
 		before := len(w.ts.Agents.Agents)
 		cl := &http.Client{Timeout: 3 * time.Second, Transport: &http.Transport{DisableKeepAlives: true}}
 		res := "noconn"
@@ -282,6 +303,7 @@ func runC16(c *Ctx) {
 	}
 	r := c.R
 	httpBudget := c.N / 120 // every HTTP removal costs 5.5 s
+	nhist := 0
 	for c.Lines < c.N {
 		w.line(c, "reset")
 		var have []string // listener names used so far in this history
@@ -289,13 +311,36 @@ func runC16(c *Ctx) {
 		var svc []string
 		nsvc := 0
 		// a few histories start with a shape that is known to matter
-		switch r.Intn(10) {
+		pre := r.Intn(10)
+		if nhist < 4 { // every run starts with each of them once
+			pre = nhist
+		}
+		nhist++
+		switch pre {
 		case 0: // two External listeners asking for the same endpoint
 			w.line(c, "ladd ext L0 e0")
 			w.line(c, "ladd ext L1 e0")
 			w.line(c, gen.Pick(r, []string{"lremove L1", "lremove L0"}))
 			have = append(have, "L0", "L1")
 			c.Count("prelude.shared-endpoint")
+		case 3: // two service connections ask for External-C2 listeners on the SAME endpoint; the refused one goes away
+			w.line(c, "sconn s0")
+			w.line(c, "sconn s1")
+			nsvc = 2
+			w.line(c, "sreg s0 exc2 L0 x1")
+			w.line(c, "sreg s1 exc2 L1 x1")
+			if r.Bool() {
+				w.line(c, "sreg s1 exc2 L0 x2") // and the other's name on a free endpoint
+			}
+			if r.Bool() {
+				w.line(c, "sclose s1")
+				svc = append(svc, "s0")
+			} else {
+				w.line(c, "sclose s0")
+				svc = append(svc, "s1")
+			}
+			have = append(have, "L0", "L1")
+			c.Count("prelude.service-shared-endpoint")
 		case 1: // a service's External-C2 listener and an operator request for the same name
 			w.line(c, "sconn s0")
 			nsvc = 1
@@ -342,6 +387,20 @@ func runC16(c *Ctx) {
 						w.line(c, fmt.Sprintf("probe %s ua-2", hn))
 						w.line(c, fmt.Sprintf("probe %s ua-1", hn))
 						c.Count("op.ledit")
+					}
+					if r.Chance(1, 2) { // edits of the URI list and the required header: set, replace, clear - each applies to the next request
+						ua := "ua-3"
+						for k := 0; k < 2+r.Intn(3); k++ {
+							uris := gen.Pick(r, []string{"-", "/a", "/a+/b", "/c"})
+							hdr := gen.Pick(r, []string{"-", "X-K:v1", "X-K:v2"})
+							w.line(c, fmt.Sprintf("ledit %s %s %s %s", hn, ua, uris, hdr))
+							c.Count("op.ledit.lists")
+							for q := 0; q < 2; q++ {
+								w.line(c, fmt.Sprintf("probe %s %s %s %s", hn, ua, gen.Pick(r, []string{"/", "/a", "/b", "/c"}), gen.Pick(r, []string{"-", "X-K:v1", "X-K:v2"})))
+							}
+						}
+						w.line(c, fmt.Sprintf("ledit %s %s - -", hn, ua))
+						w.line(c, fmt.Sprintf("probe %s %s /zzz -", hn, ua))
 					}
 				}
 			case k < 10 && len(have) > 0:
